@@ -36,6 +36,12 @@ func (b *Binary) UnmarshalJSON(data []byte) error {
 	if b == nil {
 		return errors.New("sio.Binary: UnmarshalJSON on nil pointer")
 	}
+	// `MarshalJSON` writes a nil Binary as null. Read it back as such, instead of keeping the 4 bytes of the literal
+	// (which `reconstructBinaryValue` would take for a placeholder with num 0).
+	if string(data) == "null" {
+		*b = nil
+		return nil
+	}
 	*b = append((*b)[0:0], data...)
 	return nil
 }
@@ -414,6 +420,12 @@ func (r *reconstructor) reconstructBinaryValue(
 		sb, ok := rv.Interface().(socketIOBinary)
 		if ok && sb.SocketIOBinary() {
 			pBuf := rv.Bytes()
+
+			// The sender left this position out (it was null or absent),
+			// while other positions of the packet carry attachments. There is nothing to replace.
+			if len(pBuf) == 0 {
+				return nil
+			}
 
 			var p placeholder
 			err := r.json.Unmarshal(pBuf, &p)
